@@ -222,21 +222,36 @@ def r5_3(repo: Repo) -> RuleResult:
     rr = RuleResult("R5.3", "bound comparisons are strict with the right polarity (a token exactly on the bound is kept)", floor=5)
     f = repo.func(PP, "prune_token_dictionary")
     bounds = {"min_frequency": "min", "max_frequency": "max", "min_document_frequency": "min", "max_document_frequency": "max"}
-    # the top-k threshold: a local defined as np.sort(<freqs>)[-max_unique_tokens - 1]
+    # the top-k threshold: np.sort(<freqs>)[-max_unique_tokens - 1], through a local or written in the comparison
+    TOPK = "<top-k threshold>"
+
+    def is_topk(e):
+        return isinstance(e, ast.Subscript) and "max_unique_tokens" in norm(e.slice) and "sort" in norm(e.value)
+
+    topk_names = set()
     for n in walk_no_nested(f.node):
-        if isinstance(n, ast.Assign) and isinstance(n.targets[0], ast.Name) and isinstance(n.value, ast.Subscript) \
-                and "max_unique_tokens" in norm(n.value.slice) and "sort" in norm(n.value.value):
-            bounds[n.targets[0].id] = "topk"
+        if isinstance(n, ast.Assign) and isinstance(n.targets[0], ast.Name) and is_topk(n.value):
+            topk_names.add(n.targets[0].id)
+
+    def bound_of(e):
+        t = norm(e)
+        if t in bounds:
+            return t
+        if is_topk(e) or t in topk_names:
+            return TOPK
+        return None
+
     found = {}
     for n in walk_no_nested(f.node):
         if isinstance(n, ast.Compare) and len(n.ops) == 1 and not isinstance(n.ops[0], (ast.Is, ast.IsNot, ast.In, ast.NotIn, ast.Eq, ast.NotEq)):
-            l, r = norm(n.left), norm(n.comparators[0])
-            if r in bounds and l not in bounds:
-                found.setdefault(r, []).append((n, n.ops[0], False))
-            elif l in bounds and r not in bounds and not isinstance(n.comparators[0], ast.Constant):
-                found.setdefault(l, []).append((n, n.ops[0], True))  # bound on the left: operator is mirrored
-    if "topk" not in bounds.values():
+            bl, br = bound_of(n.left), bound_of(n.comparators[0])
+            if br is not None and bl is None:
+                found.setdefault(br, []).append((n, n.ops[0], False))
+            elif bl is not None and br is None and not isinstance(n.comparators[0], ast.Constant):
+                found.setdefault(bl, []).append((n, n.ops[0], True))  # bound on the left: operator is mirrored
+    if TOPK not in found:
         raise AnalysisError("R5.3: top-k threshold `np.sort(...)[-max_unique_tokens - 1]` not found in prune_token_dictionary")
+    bounds[TOPK] = "topk"
     for b, kind in bounds.items():
         sites = [x for x in found.get(b, []) if "len(" not in norm(x[0])]
         if not sites:
